@@ -331,9 +331,11 @@ Fixpoint spec_take (q : query) (k : nat) (os : list object) : option (list objec
     end
   end.
 
-(** no more than [length os] objects can match, so that bound is "no limit" *)
+(** no more than [length os] objects can match, so that bound is "no limit"
+    (and a limit is never worth more than it) *)
 Definition spec_filter (q : query) (os : list object) : option (list object) :=
-  spec_take q (if (q_limit q <=? 0)%Z then List.length os else Z.to_nat (q_limit q)) os.
+  let len := List.length os in
+  spec_take q (if (q_limit q <=? 0)%Z then len else Z.to_nat (Z.min (q_limit q) (Z.of_nat len))) os.
 
 Definition no_empty_card (os : list object) : Prop := Forall (fun o => o_card o <> []) os.
 Definition no_empty_card_b (os : list object) : bool := forallb (fun o => negb (is_nil (o_card o))) os.
